@@ -219,6 +219,50 @@ example : OTScript [108, 97, 111, 32] ∧ OTLang [78, 76, 68, 32] ∧
     extString [108, 97, 111, 32] [78, 76, 68, 32] = [120, 45, 108, 97, 111, 45, 110, 108, 100] :=
   ⟨isOTScriptB_sound _ (by decide), isOTLangB_sound _ (by decide), by decide⟩
 
+/-! ### the encoders refuse loudly what the formats cannot hold (repairs 96a7393, ac2ee73, 3d806bb) -/
+
+/-- post: the checked encoder (model of `Encode` with its panics) returns bytes exactly when the
+name list is the standard list or fits format 2.0 — at most 65535 glyphs, non-standard names of at
+most 255 bytes, `258 + non-standard names ≤ 65536` (`postFits`, the guards of
+`C14_post_roundtrip`) — and these are the bytes of `postEncode`. -/
+theorem C14_post_checked_ok_iff (h : PostHdr) (ns : List GName) (b : List Nat) :
+    postEncodeChecked h (some ns) = .ok b ↔
+      (ns = postTable ∨ postFits postTable ns = true) ∧ b = postEncode h (some ns) :=
+  postEncodeChecked_ok_iff postTable h ns b
+
+/-- post, full strength: for EVERY glyph-name list (nil, any length, any names) `Encode` either
+panics or writes a table from which `Read` returns the header fields and the list unchanged.
+No silent loss anywhere in the property's domain (65535 custom names exceed what format 2.0 can
+index: refusal is the only faithful outcome there). -/
+theorem C14_post_checked_roundtrip (h : PostHdr) (hr : h.InRange) (names : Option (List GName)) :
+    (∃ s, postEncodeChecked h names = .panic s) ∨
+    (∃ b, postEncodeChecked h names = .ok b ∧ postRead b = .ok h names) :=
+  post_checked_roundtrip postTable h hr names
+
+/-- name: the checked encoder returns bytes exactly when every new string starts at an offset
+≤ 0xFFFF and is at most 0xFFFF bytes long and `6 + 12·records ≤ 0xFFFF` (`nameFits`), and these
+are the bytes of `nameEncodeWith`. -/
+theorem C14_name_checked_ok_iff (macOrder winOrder : List (Nat × String)) (info : List Entry)
+    (winEid : Nat) (b : List Nat) :
+    nameEncodeCheckedWith macOrder winOrder info winEid = .ok b ↔
+      nameFits macOrder winOrder info winEid = true ∧ b = nameEncodeWith macOrder winOrder info winEid :=
+  nameEncodeChecked_ok_iff macOrder winOrder info winEid b
+
+/-- name, full strength: for EVERY Info of the domain (distinct keys, supported tags, representable
+strings, 16-bit name ids, encoding id 1 or 10 — NO bound on sizes) and every iteration order,
+`Encode` either panics or writes a table from which `Decode` returns exactly the stored strings.
+(`C14_name_roundtrip` keeps the older, sufficient guards `records`, `storage ≤ 65535`; this theorem
+holds under the encoder's own, exact guard.) -/
+theorem C14_name_checked_roundtrip (macOrder winOrder : List (Nat × String)) (info : List Entry)
+    (winEid : Nat) (h : NameDomBase Gen.appleBCP Gen.msBCP macOrder winOrder info winEid) :
+    (∃ s, nameEncodeCheckedWith macOrder winOrder info winEid = .panic s) ∨
+    (∃ b dec, nameEncodeCheckedWith macOrder winOrder info winEid = .ok b ∧
+      nameDecode b = some dec ∧ ∀ p t i, getVal dec p t i = getVal info p t i) :=
+  name_checked_roundtrip Gen.appleBCP Gen.msBCP macOrder winOrder info winEid h
+
+example : postFits [[97], [98]] [[98], [120, 121], [97]] = true ∧
+    postFits [[97]] [List.replicate 256 120] = false := by decide +kernel
+
 /-! ### tags without the `-x-` extension (repaired `bcp47ToOtf`, a8e5c74) -/
 
 /-- Determinism: for a tag without extension the answer of `bcp47ToOtf` does not depend on the
